@@ -302,6 +302,9 @@ func (ii *invertedIndex) getSeriesIDs(key uint32) (*roaring.Bitmap, error) {
 	}); err != nil {
 		return nil, err
 	}
+	// NOTE: containers taken over from the unmarshalled bitmap still point into the table file(mmap),
+	// copy them before the snapshot is closed, after that the file can be removed by a compaction.
+	result.CloneCopyOnWriteContainers()
 	return result, nil
 }
 
@@ -331,6 +334,8 @@ func (ii *invertedIndex) findSeriesIDsByKeys(keys *roaring.Bitmap) (*roaring.Bit
 			return nil, err
 		}
 	}
+	// NOTE: copy the containers which still point into the table files(same as getSeriesIDs)
+	result.CloneCopyOnWriteContainers()
 	return result, nil
 }
 
@@ -462,6 +467,8 @@ func (fi *forwardIndex) findSeriesIDsForTag(tagKeyID tag.KeyID) (*roaring.Bitmap
 			return nil, err
 		}
 		result.Or(seriesIDs)
+		// NOTE: copy the containers which still point into the table files(same as invertedIndex.getSeriesIDs)
+		result.CloneCopyOnWriteContainers()
 	}
 	return result, nil
 }
